@@ -167,3 +167,13 @@ Definition spec_sym_binds : list (string * list (Z * string)) :=
    ("st_other.visibility", spec_st_visibility); ("st_shndx", spec_st_shndx)]%string.
 Definition spec_syminfo_binds : list (string * list (Z * string)) :=
   [("si_boundto", spec_si_boundto)]%string.
+
+(* ---- placement: the bytes [bs] occupy the file image from offset [off] on (whatever
+        precedes and follows them).  Image-level statements quantify over ALL images
+        satisfying such facts, not over images made by a builder. *)
+Definition placed (img : list Z) (off : Z) (bs : list Z) : Prop :=
+  exists pre post, img = (pre ++ bs ++ post)%list /\ zlen pre = off.
+
+(* the i-th symbol of an enumeration (table index i) *)
+Definition dview : symview := ([], []).
+Definition vth (vs : list symview) (i : Z) : symview := nth (Z.to_nat i) vs dview.
